@@ -36,6 +36,16 @@ func getWalkerFn(root string) walkerFn {
 				return errors.Errorf("%T invalid file without stat information", f.Sys())
 			}
 
+			if stat.Size == 0 && os.FileMode(stat.Mode).IsRegular() {
+				// a walk reports a socket as an empty regular file (it cannot
+				// be transferred as anything else). For the destination that
+				// would make a stale socket equal to an empty file of the
+				// same mode, owner and time: keep its type in the comparison
+				if fi, err := os.Lstat(filepath.Join(root, path)); err == nil && fi.Mode()&os.ModeSocket != 0 {
+					stat.Mode |= uint32(os.ModeSocket)
+				}
+			}
+
 			p := &currentPath{
 				path: path,
 				stat: stat,
